@@ -94,7 +94,22 @@ fn gen_queries(prop: &str, n: usize, seed: u64, out: &Path, cap: usize) {
     let mut rng = StdRng::seed_from_u64(seed);
     let ctx = query::Ctx::new();
     let mut sink = Sink::new(out, cap);
-    let positions = posgen::mixed(&mut rng, n);
+    let mut positions = posgen::mixed(&mut rng, n);
+    if prop == "C16" || prop == "C07" || prop == "C01" {
+        // boards REACHED by special moves (incrementally updated derived state), not rebuilt from squares
+        let mut extra = Vec::new();
+        for b in positions.iter() {
+            for m in owlchess::movegen::legal::gen_all(b).iter() {
+                if m.kind() != owlchess::moves::MoveKind::Simple && m.kind() != owlchess::moves::MoveKind::PawnDouble {
+                    if let Ok(Ok(nb)) = std::panic::catch_unwind(std::panic::AssertUnwindSafe(|| b.make_move(*m))) {
+                        extra.push(nb);
+                    }
+                }
+            }
+        }
+        extra.truncate(n / 3 + 50);
+        positions.extend(extra);
+    }
     for b in positions.iter() {
         sink.begin(&json!({"prop": prop, "fen": b.as_fen()}));
         let ev = query_one(&ctx, b, prop);
@@ -172,7 +187,7 @@ fn regen(prop: &str, input: &Path, out: &Path) {
     sink.finish();
 }
 
-const SHUFFLE_STARTS: [&str; 12] = [
+const SHUFFLE_STARTS: [&str; 16] = [
     "4k3/8/8/8/8/8/8/R3K3 w - - 90 60",
     "4k3/8/8/8/8/8/8/R3K3 w Q - 0 1",
     "r3k2r/8/8/8/8/8/8/R3K2R w KQkq - 0 1",
@@ -185,18 +200,54 @@ const SHUFFLE_STARTS: [&str; 12] = [
     "4k2r/8/8/8/3Pp3/8/8/4K3 b k d3 0 1",
     "8/8/8/4k3/8/8/3QK3/8 w - - 148 90",
     "7k/8/8/8/8/8/8/KQ6 w - - 98 1",
+    "k7/8/K7/4B3/8/8/8/8 w - - 0 1",
+    "k7/8/1K1p4/8/5B2/8/8/8 w - - 0 1",
+    "7k/8/6K1/8/8/8/8/5N2 w - - 0 1",
+    "8/8/8/8/8/1k6/8/K1b5 w - - 0 1",
 ];
+
+/// the position right after a double pawn step on every file, either colour: the mark makes it differ
+/// from the same squares without the mark
+fn double_push_starts() -> Vec<String> {
+    let mut v = Vec::new();
+    for f in 0..8usize {
+        let file = (b'a' + f as u8) as char;
+        let mut w: Vec<char> = "PPPPPPPP".chars().collect();
+        w[f] = '1';
+        let row4: String = format!("{}P{}", if f > 0 { f.to_string() } else { String::new() }, if f < 7 { (7 - f).to_string() } else { String::new() });
+        let row2: String = w.iter().collect::<String>().replace('1', "1");
+        v.push(format!("rnbqkbnr/pppppppp/8/8/{row4}/8/{row2}/RNBQKBNR b KQkq {file}3 0 1"));
+        let mut bl: Vec<char> = "pppppppp".chars().collect();
+        bl[f] = '1';
+        let row5: String = format!("{}p{}", if f > 0 { f.to_string() } else { String::new() }, if f < 7 { (7 - f).to_string() } else { String::new() });
+        let row7: String = bl.iter().collect();
+        v.push(format!("rnbqkbnr/{row7}/8/{row5}/8/8/PPPPPPPP/RNBQKBNR w KQkq {file}6 0 2"));
+    }
+    v
+}
 
 fn gen_chain(prop: &str, n: usize, rng: &mut StdRng, sink: &mut Sink) {
     use rand::seq::SliceRandom;
     use rand::Rng;
     let ctx = query::Ctx::new();
+    if prop == "C17" {
+        sink.begin(&json!({"prop": prop, "sweep": "ucilist"}));
+        let deep = std::env::var("HARNESS_DEEP").is_ok();
+        for e in chain::ucilist_sweep(if deep { 121 } else { 61 }) {
+            sink.emit(&e);
+        }
+        sink.rotate();
+    }
     let positions = posgen::mixed(rng, n);
     let with_san = std::env::var("HARNESS_NO_SAN").is_err();
     for (i, b) in positions.iter().enumerate() {
         let (start, profile, nops) = match prop {
             "C14" => {
-                if i % 4 != 3 {
+                if i % 4 == 1 {
+                    let dp = double_push_starts();
+                    let f = &dp[(i / 4) % dp.len()];
+                    (owlchess::Board::from_fen(f).unwrap(), "shuffle", rng.gen_range(14..30))
+                } else if i % 4 != 3 {
                     let f = SHUFFLE_STARTS.choose(rng).unwrap();
                     (owlchess::Board::from_fen(f).unwrap(), "shuffle", rng.gen_range(20..90))
                 } else {
@@ -275,7 +326,11 @@ fn gen_notation(prop: &str, n: usize, rng: &mut StdRng, sink: &mut Sink) {
                     }
                 }
             }
-            let pos: Vec<owlchess::Board> = positions.iter().take(8).cloned().collect();
+            let mut pos: Vec<owlchess::Board> = positions.iter().take(8).cloned().collect();
+            // make sure both colours are on move among the positions used by the position-dependent parsers
+            pos.push(owlchess::Board::from_fen("rnbqkbnr/pppppppp/8/8/4P3/8/PPPP1PPP/RNBQKBNR b KQkq e3 0 1").unwrap());
+            pos.push(owlchess::Board::from_fen("4k3/P6P/8/8/8/8/p6p/4K3 b - - 0 1").unwrap());
+            pos.push(owlchess::Board::from_fen("4k3/P6P/8/8/8/8/p6p/4K3 w - - 0 1").unwrap());
             // grammar-directed: valid texts of every kind and their mutations
             let mut valid: Vec<String> = vec!["e2e4".into(), "e7e8q".into(), "0000".into(), "O-O".into(), "O-O-O+".into(),
                 "Nbd2".into(), "exd5".into(), "e8=Q#".into(), "dcB".into(), "KQkq".into(), "-".into(), "w".into(), "b".into(),
@@ -290,6 +345,33 @@ fn gen_notation(prop: &str, n: usize, rng: &mut StdRng, sink: &mut Sink) {
                 }
                 let pl = posgen::playout(rng, b, 6);
                 let _ = pl;
+            }
+            // every pawn-move SAN form for every square, with and without promotion suffix (both colours are
+            // reached because the positions used for from_san differ in the side to move)
+            for f in "abcdefgh".chars() {
+                for r in 1..=8 {
+                    for suf in ["", "=Q", "N", "=R+", "#"] {
+                        strings.push(format!("{f}{r}{suf}"));
+                    }
+                    strings.push(format!("{}x{f}{r}", if f == 'a' { 'b' } else { 'a' }));
+                    strings.push(format!("{}x{f}{r}=N", if f == 'h' { 'g' } else { 'h' }));
+                }
+            }
+            // FEN placement field: one extra character inserted after each rank / at the very end
+            for fen in ["rnbqkbnr/pppppppp/8/8/8/8/PPPPPPPP/RNBQKBNR w KQkq - 0 1", "8/8/8/8/8/8/8/8 w - - 0 1",
+                        "k7/8/8/8/8/8/8/7K b - - 3 4"] {
+                let (place, rest) = fen.split_once(' ').unwrap();
+                let ranks: Vec<&str> = place.split('/').collect();
+                for i in 0..8 {
+                    for ins in ["p", "K", "1", "8", "9", "/", ".", "x"] {
+                        let mut rr: Vec<String> = ranks.iter().map(|x| x.to_string()).collect();
+                        rr[i].push_str(ins);
+                        strings.push(format!("{} {}", rr.join("/"), rest));
+                        let mut rr: Vec<String> = ranks.iter().map(|x| x.to_string()).collect();
+                        rr[i].insert_str(0, ins);
+                        strings.push(format!("{} {}", rr.join("/"), rest));
+                    }
+                }
             }
             let reps = if deep { 12 } else { 3 };
             for v in valid.clone() {
@@ -370,8 +452,9 @@ fn gen_misc(prop: &str, n: usize, rng: &mut StdRng, sink: &mut Sink) {
             use rand::seq::SliceRandom;
             order.shuffle(rng);
             for (i, sq) in order.iter().enumerate() {
-                let complete = i < n;
                 for rook in [true, false] {
+                    // bishop masks are small (<= 512 subsets): always enumerated completely
+                    let complete = i < n || !rook;
                     sink.begin(&json!({"prop": prop, "sq": sq, "rook": rook}));
                     for ev in misc::magic_events(rng, *sq, rook, complete, 256) {
                         sink.emit(&ev);
@@ -439,6 +522,9 @@ fn gen_misc(prop: &str, n: usize, rng: &mut StdRng, sink: &mut Sink) {
             for ev in misc::bitboard_events(rng) {
                 sink.emit(&ev);
             }
+            for ev in misc::iter_events(rng) {
+                sink.emit(&ev);
+            }
         }
         _ => unreachable!(),
     }
@@ -477,6 +563,42 @@ fn gen_from(prop: &str, posfile: &Path, out: &Path, cap: usize) {
                 if prop == "C05" {
                     evs.extend(session::hash_pairs(&mut rng, &b));
                 }
+                if sink.room() < evs.len() {
+                    sink.rotate();
+                }
+                for e in evs {
+                    sink.emit(&e);
+                }
+            }
+            "C02" | "C13" => {
+                // every semilegal move pushed once as a Move and once as UCI text (accepted ones popped again)
+                let mut c: Option<chain::Chain> = None;
+                let mut evs = vec![chain::exec(&mut c, &json!({"op": "new", "pos": proj::raw_json(b.raw())}))];
+                let mut sv = Vec::new();
+                owlchess::movegen::semilegal::gen_all_into(&b, &mut sv);
+                let files = "abcdefgh";
+                let mut likes: Vec<Value> = Vec::new();
+                for (i, m) in sv.iter().enumerate() {
+                    likes.push(if i % 2 == 0 { json!({"t": "move", "m": proj::mv_json(*m)}) }
+                               else { json!({"t": "uci", "text": proj::text_json(&m.to_string())}) });
+                    // SAN spellings of pawn captures: the short form "ed" and the long form "exd6", as a string
+                    // and as a parsed san::Move (these take the path that applies the move without the final test)
+                    if m.src_cell().piece() == Some(owlchess::types::Piece::Pawn) && m.src().file() != m.dst().file() {
+                        let a = files.as_bytes()[m.src().file().index()] as char;
+                        let c = files.as_bytes()[m.dst().file().index()] as char;
+                        likes.push(json!({"t": "san", "text": proj::text_json(&format!("{a}{c}"))}));
+                        likes.push(json!({"t": "sanmove", "text": proj::text_json(&format!("{a}x{}", m.dst()))}));
+                    }
+                }
+                for like in likes.into_iter() {
+                    let e = chain::exec(&mut c, &json!({"op": "push", "like": like}));
+                    let ok = e["res"] == "ok";
+                    evs.push(e);
+                    if ok {
+                        evs.push(chain::exec(&mut c, &json!({"op": "pop"})));
+                    }
+                }
+                let _ = &sv;
                 if sink.room() < evs.len() {
                     sink.rotate();
                 }
